@@ -446,6 +446,24 @@ class RegexConst:
         return "re(%r, %d)" % (self.pattern, self.flags)
 
 
+def clone_ast(node):
+    """Deep copy of a syntax tree that does not follow the analyser's own
+    back links (``_parent`` ...): ``copy.deepcopy`` would copy the whole
+    module through them."""
+    if isinstance(node, list):
+        return [clone_ast(x) for x in node]
+    if not isinstance(node, ast.AST):
+        return node
+    new = node.__class__()
+    for f in node._fields:
+        if hasattr(node, f):
+            setattr(new, f, clone_ast(getattr(node, f)))
+    for a in node._attributes:
+        if hasattr(node, a):
+            setattr(new, a, getattr(node, a))
+    return new
+
+
 def src(node, limit=4000):
     try:
         s = ast.unparse(node)
